@@ -5,7 +5,8 @@
    "Every entry produced by Append verifies ... under every codec configuration" is C07
    (C07_created_entry_verifies, default codec) and C18 (link-encrypting codec). *)
 From Coq Require Import List ZArith Bool Lia Permutation.
-From IpfsLog Require Import Model.System Proofs.OmapProofs Proofs.Inv Proofs.JoinProofs Proofs.SysProofs Proofs.StepProofs.
+From IpfsLog Require Import Model.System Proofs.OmapProofs Proofs.Inv Proofs.JoinProofs Proofs.SysProofs Proofs.StepProofs
+     Proofs.PInv Proofs.PJoin Proofs.PSys.
 Import ListNotations.
 Open Scope Z_scope.
 
@@ -38,6 +39,24 @@ Proof.
   exact (join_ok_iff_all_valid _ l o UO (IL r l L) (IL src o O) Hid size Hs).
 Qed.
 
+(* what a merge exposes as heads (and hence linearises) are the log's own entries - entries it held
+   or entries that passed the checks above - WHATEVER the other log presents as its heads: [o] is an
+   arbitrary object here (forged head objects, heads of another log id, unknown hashes), only its
+   entry map must store entries under their own hashes.  [l] is any replica of any history. *)
+Theorem C06_heads_are_own_verified_entries ops r l o size l' :
+  pwf ops -> nth_error (s_logs (run ops)) r = Some l ->
+  well_keyed (l_entries o) -> size < 0 ->
+  join l o false size = (l', Ok tt) ->
+  forall k v, In (k, v) (l_heads l') ->
+    In (k, v) (l_entries l') /\
+    (In (k, v) (l_entries l) \/ (e_logid v = l_id l /\ entry_ok l v = true)).
+Proof.
+  intros W L WK Hs J k v Hh. destruct (psinv_run ops W) as [_ IL].
+  pose proof (join_heads_are_own_entries _ l o size l' (IL r l L) WK Hs J k v Hh) as He.
+  split; [exact He|].
+  destruct (join_admits_only_valid l o size l' Hs J k v He) as [?|[A [B _]]]; auto.
+Qed.
+
 (* a denied append changes neither entries nor heads (only the clock has ticked) *)
 Theorem C06_denied_append_unchanged l payload pc h l' :
   append l payload pc h = (l', Err EDenied) ->
@@ -68,6 +87,7 @@ Print Assumptions C06_join_error_leaves_log_unchanged.
 Print Assumptions C06_join_admits_only_valid.
 Print Assumptions C06_invalid_candidate_rejects_join.
 Print Assumptions C06_join_succeeds_iff_all_missing_valid.
+Print Assumptions C06_heads_are_own_verified_entries.
 Print Assumptions C06_denied_append_unchanged.
 Print Assumptions C06_append_denied_iff.
 Print Assumptions C06_nonvacuous.
